@@ -93,6 +93,22 @@ def run_c17(tier):
     if len(sbehs) < nsim // 2:
         sys.stderr.write(open(slog, errors="replace").read()[-2000:])
         raise ToolError("simulation produced only %d behaviours" % len(sbehs))
+    # unbounded integer core with Apalache: IndInv is inductive and implies FreshIsNew
+    apal = {}
+    import subprocess, shutil
+    adir = os.path.join(OUT, "tlc", "C17_apalache")
+    shutil.rmtree(adir, ignore_errors=True)
+    os.makedirs(adir)
+    shutil.copy(os.path.join(SPEC, "apalache", "SlotCounter.tla"), adir)
+    for name, args in [("Init=>IndInv", ["--init=Init", "--inv=IndInv", "--length=0"]),
+                       ("IndInv/\\Next=>IndInv'", ["--init=IndInit", "--inv=IndInv", "--length=1"]),
+                       ("IndInv=>FreshIsNew", ["--init=IndInit", "--inv=FreshIsNew", "--length=0"])]:
+        r = subprocess.run(["timeout", "600", "apalache-mc", "check"] + args + ["SlotCounter.tla"], cwd=adir, capture_output=True, text=True)
+        apal[name] = "EXITCODE: OK" in r.stdout
+        if not apal[name]:
+            sys.stderr.write(r.stdout[-1500:])
+            raise ToolError("Apalache could not discharge %s for SlotCounter.tla" % name)
+    shutil.rmtree(os.path.join(adir, "_apalache-out"), ignore_errors=True)
     bpath = os.path.join(os.path.dirname(logp), "beh.ndjson")
     with open(bpath, "w") as f:
         for b in behs + sbehs:
@@ -109,7 +125,8 @@ def run_c17(tier):
            "rule": "all interleavings of fresh/numeric/named up to depth %d over names %s and numbers 0,1,7, each replayed in a "
                    "fresh thread; plus %d simulated behaviours of depth 12 over a larger alphabet; distinct = distinct result sequences"
                    % (depth, ST_NAMES, len(sbehs)),
-           "exhaustive": True, "tlc_model": st, "simulated_behaviours": len(sbehs)}
+           "exhaustive": True, "tlc_model": st, "simulated_behaviours": len(sbehs),
+           "apalache_inductive_obligations": apal}
     finish(prop, tier, t0, findings, cov, assumptions=[
         "numeric names below 2^30 and fresh counters far from u32 overflow (as in the property's quantifier)",
         "the invariants FreshIsNew, BelowCtr, NamesInjective, RoundTrip are checked by TLC on SlotTable.tla itself; the Rust "
